@@ -26,7 +26,15 @@ pub const HOSTILE_DOUBLES: [f64; 12] = [
 ];
 
 pub fn fuzz_bytes(rng: &mut Rng) -> Vec<u8> {
-    match rng.below(10) {
+    match rng.below(11) {
+        10 => {
+            // periodic input: a short period repeated (drives the generator into a cycle of
+            // opcode choices, i.e. the same construction step many times over)
+            let p = 1 + rng.below(5) as usize;
+            let period = rng.bytes(p);
+            let n = 200 + rng.below(3000) as usize;
+            (0..n).map(|i| period[i % p]).collect()
+        }
         0 => vec![],
         1 => {
             let n = rng.below(3000) as usize;
@@ -178,6 +186,8 @@ pub fn matrix_case(i: usize, seed: u64, sp: &Space) -> Config {
         mutators,
         rate,
         raw_rate: false,
+        // a quarter of the cases run on a generator that already produced another pickle
+        warmup: if rng.below(4) == 0 { Some(rng.next() >> 8) } else { None },
         unsafe_mut,
         ext,
         buf,
